@@ -404,7 +404,7 @@ pub fn property() -> Property {
             name: "invocations",
             plan: |t| match t {
                 Tier::Quick => Plan::Random { cases: 80_000, max_len: 300 },
-                Tier::Thorough => Plan::Random { cases: 400_000, max_len: 400 },
+                Tier::Thorough => Plan::Random { cases: 2_000_000, max_len: 400 },
             },
             case,
             min_classes: &[("wrong-handle-kind", 1000), ("released-handle", 500), ("too-few-arguments", 1000), ("context-function", 2000), ("context-condition", 2000), ("cmd-cp_glob", 1000), ("cmd-array_concat", 1000), ("caller-variable-in-sibling-scope", 3000)],
